@@ -1,4 +1,4 @@
-import ConduitModel.Proofs.CtlStore
+import ConduitModel.Proofs.CtlRefsOps
 
 /-!
 # C14 — API changes are all-or-nothing and keep memory, store and references consistent
@@ -95,33 +95,153 @@ theorem C14_mem_eq_store_step_partial (v : Variant) (s : St) (op : Op) (k : Opti
     obtain ⟨h1, h2, h3, _, h5, h6, h7⟩ := hv
     exact ⟨by rw [h1, h5, a], by rw [h2, h6, b], by rw [h3, h7, c], htx⟩
 
-/-- histories (API and environment operations, any failing indices) on which no F7 trigger fires
-and the reference part of the invariant holds before each step. (The reference invariant is
-evaluated by the monitor on every history; its preservation by the successful effects of the
-operations is not proved here — that is what makes the history theorem `_partial`.) -/
+/-! ## references: an inductive invariant of every trigger-free history -/
+
+theorem minv_of_inv {s : St} (hi : Inv s) : MInv s.next s.mem :=
+  ⟨hi.names, hi.uniq, hi.refs, hi.wf, (fresh_iff_below s).1 hi.fresh⟩
+
+/-- C14.inv_step — the whole invariant (no open transaction, memory = store, names, references,
+fresh ids, well-formedness) is preserved by every step of every kind — API or environment
+operation, every argument and guard outcome, every failing store-operation index — outside the
+F7 trigger table (the recorded known findings). -/
+theorem C14_inv_step (v : Variant) (s : St) (op : Op) (k : Option Nat) (hi : Inv s)
+    (ht : f7Trigger v s op k = false) : Inv (exec v s op k).2 := by
+  have htx := exec_tx_none v s op k hi.tx
+  have hnext : (exec v s op k).2.next = s.next + 1 := rfl
+  by_cases hok : (exec v s op k).1 = .ok ()
+  · have hm : MInv (s.next + 1) (exec v s op k).2.mem :=
+      opBody_ok_minv v s.next op { s with ctr := 0, failAt := if op.isApi then k else none } (minv_of_inv hi) hok
+    exact ⟨htx, exec_ok_memEq v s op k hi.eq hok, hm.names, hm.uniq, hm.refs,
+      (fresh_iff_below _).2 (by rw [hnext]; exact hm.below), hm.wf⟩
+  · have hv : (exec v s op k).2.view = s.view := by
+      by_cases hapi : op.isApi = true
+      · exact (C14_atomic_partial v s op k hapi hi ht).2 hok
+      · exact env_err_unchanged v s op k (by simpa using hapi) hok
+    simp only [St.view, View.mk.injEq] at hv
+    obtain ⟨h1, h2, h3, h4, h5, h6, h7⟩ := hv
+    have hmem : (exec v s op k).2.mem = s.mem := Mem.ext' h1 h2 h3 h4
+    obtain ⟨a, b, c, _⟩ := hi.eq
+    have hm := (minv_of_inv hi).mono (Nat.le_succ s.next)
+    rw [← hmem] at hm
+    exact ⟨htx, ⟨by rw [h1, h5, a], by rw [h2, h6, b], by rw [h3, h7, c], htx⟩, hm.names, hm.uniq, hm.refs,
+      (fresh_iff_below _).2 (by rw [hnext]; exact hm.below), hm.wf⟩
+
+theorem inv_init : Inv St.init := by
+  refine ⟨rfl, ⟨rfl, rfl, rfl, rfl⟩, ?_, ?_, ?_, ?_, ?_⟩
+  · intro n; simp [St.init, Mem.empty]
+  · intro i j p q hp; simp [St.init, Mem.empty] at hp
+  · constructor <;> intros <;> simp_all [St.init, Mem.empty]
+  · constructor <;> intros <;> simp_all [St.init, Mem.empty]
+  · constructor <;> intros <;> simp_all [St.init, Mem.empty]
+
+/-- memory = store carries reference consistency over to what a restarted server loads. -/
+theorem refInv_storeImage {s : St} (he : MemEqStore s) (h : RefInv s) : RefInv (storeImage s) := by
+  obtain ⟨a, b, c, _⟩ := he
+  have : (storeImage s).mem = s.mem := Mem.ext' a.symm b.symm c.symm rfl
+  unfold RefInv; rw [this]; exact h
+
+/-- a history all of whose steps are outside the F7 trigger table (the trigger is evaluated in
+the state each step starts from): a fold over an arbitrary op list. -/
+def TriggerFreeRun (v : Variant) : St → List (Op × Option Nat) → Prop
+  | _, [] => True
+  | s, (op, k) :: rest => f7Trigger v s op k = false ∧ TriggerFreeRun v (exec v s op k).2 rest
+
+theorem inv_run (v : Variant) (h : List (Op × Option Nat)) : ∀ s, Inv s → TriggerFreeRun v s h → Inv (run v s h) := by
+  induction h with
+  | nil => intro s hi _; exact hi
+  | cons x rest ih =>
+    intro s hi ht
+    obtain ⟨op, k⟩ := x
+    exact ih _ (C14_inv_step v s op k hi ht.1) ht.2
+
+/-- C14.refs_init — the empty server is reference-consistent, in memory and in the store image. -/
+theorem C14_refs_init : RefInv St.init ∧ RefInv (storeImage St.init) :=
+  ⟨inv_init.refs, refInv_storeImage inv_init.eq inv_init.refs⟩
+
+/-- C14.refs_step — "pipelines reference exactly their existing connectors and processors and
+vice versa": one step of any kind (every op, every argument, every guard outcome, every failing
+store-operation index outside the trigger table) keeps the references consistent, in memory and
+in what a restarted server loads. -/
+theorem C14_refs_step (v : Variant) (s : St) (op : Op) (k : Option Nat) (hi : Inv s)
+    (ht : f7Trigger v s op k = false) :
+    RefInv (exec v s op k).2 ∧ RefInv (storeImage (exec v s op k).2) := by
+  have h := C14_inv_step v s op k hi ht
+  exact ⟨h.refs, refInv_storeImage h.eq h.refs⟩
+
+/-- C14.refs_reachable — the three-way agreement "memory = store = references" over ALL op
+sequences: after any history (any length, any mix of API and environment operations, valid and
+invalid arguments, a failing store operation on any call) that stays outside the trigger table,
+the in-memory view is reference-consistent, equals the store, and the store image (what a
+restarted server loads) is reference-consistent too; pipeline names are unique and
+`instanceNames` is exactly the set of names. -/
+theorem C14_refs_reachable (v : Variant) (h : List (Op × Option Nat)) (ht : TriggerFreeRun v St.init h) :
+    RefInv (run v St.init h) ∧ MemEqStore (run v St.init h) ∧ RefInv (storeImage (run v St.init h)) ∧
+    NamesOk (run v St.init h).mem ∧ NameUniq (run v St.init h).mem := by
+  have hi := inv_run v h St.init inv_init ht
+  exact ⟨hi.refs, hi.eq, refInv_storeImage hi.eq hi.refs, hi.names, hi.uniq⟩
+
+/-- the states reachable by trigger-free histories (inductive form of `TriggerFreeRun`). -/
 inductive TriggerFree (v : Variant) : St → Prop
   | init : TriggerFree v St.init
   | step {s : St} (op : Op) (k : Option Nat) : TriggerFree v s → f7Trigger v s op k = false →
-      NamesOk s.mem → Refs s.mem → Fresh s → WF s.mem → TriggerFree v (exec v s op k).2
+      TriggerFree v (exec v s op k).2
 
-/-- C14.mem_eq_reload (partial, see `TriggerFree`) — "after any sequence of such calls the
+theorem TriggerFree.inv {v : Variant} {s : St} (h : TriggerFree v s) : Inv s := by
+  induction h with
+  | init => exact inv_init
+  | @step s op k _ ht ih => exact C14_inv_step v s op k ih ht
+
+/-- C14.mem_eq_reload (partial only in the trigger table) — "after any sequence of such calls the
 in-memory view equals what a restarted server loads from the store": by induction over
 histories of any length, for every variant. -/
-theorem C14_mem_eq_store_partial (v : Variant) (s : St) (h : TriggerFree v s) : MemEqStore s := by
-  induction h with
-  | init => exact ⟨rfl, rfl, rfl, rfl⟩
-  | @step s op k _ ht hn hr hf hw ih =>
-    have hi : Inv s := ⟨ih.2.2.2, ih, hn, hr, hf, hw⟩
-    by_cases hapi : op.isApi = true
-    · exact C14_mem_eq_store_step_partial v s op k hapi hi ht
-    · by_cases hok : (exec v s op k).1 = .ok ()
-      · exact exec_ok_memEq v s op k ih hok
-      · have hv := env_err_unchanged v s op k (by simpa using hapi) hok
-        have htx := exec_tx_none v s op k ih.2.2.2
-        obtain ⟨a, b, c, _⟩ := ih
-        simp only [St.view, View.mk.injEq] at hv
-        obtain ⟨h1, h2, h3, _, h5, h6, h7⟩ := hv
-        exact ⟨by rw [h1, h5, a], by rw [h2, h6, b], by rw [h3, h7, c], htx⟩
+theorem C14_mem_eq_store_partial (v : Variant) (s : St) (h : TriggerFree v s) : MemEqStore s := h.inv.eq
+
+/-- the executable monitor agrees: on reachable states `refsB` (what the driver evaluates on
+every history) holds whenever `RefInv` does — `RefInv` is at least as strong on the id universe
+`[0, next)`. -/
+theorem nodupB_of_nodup : ∀ (l : List Id), l.Nodup → nodupB l = true
+  | [], _ => rfl
+  | x :: xs, h => by
+    have h' := List.nodup_cons.1 h
+    simp [nodupB, h'.1, nodupB_of_nodup xs h'.2]
+
+theorem C14_refsB_of_inv {s : St} (hi : Inv s) : refsB s = true := by
+  have hb := (fresh_iff_below s).1 hi.fresh
+  unfold refsB
+  simp only [List.all_eq_true, List.mem_range]
+  intro i _
+  simp only [Bool.and_eq_true]
+  refine ⟨⟨?_, ?_⟩, ?_⟩
+  · cases hp : s.mem.pls i with
+    | none => rfl
+    | some p =>
+      simp only [Bool.and_eq_true, List.all_eq_true, decide_eq_true_eq]
+      refine ⟨⟨⟨?_, ?_⟩, ?_⟩, ?_⟩
+      · intro c hc
+        obtain ⟨c0, hc0, e⟩ := hi.refs.plConn i p c hp hc
+        simp [hc0, e]
+      · intro r hr
+        obtain ⟨r0, hr0, e1, e2⟩ := hi.refs.plProc i p r hp hr
+        simp [hr0, e1, e2]
+      · exact nodupB_of_nodup _ (hi.refs.plNodupC i p hp)
+      · exact nodupB_of_nodup _ (hi.refs.plNodupR i p hp)
+  · cases hc : s.mem.cns i with
+    | none => rfl
+    | some c =>
+      simp only [Bool.and_eq_true, List.all_eq_true, decide_eq_true_eq]
+      obtain ⟨p, hp, hin⟩ := hi.refs.connPl i c hc
+      refine ⟨⟨?_, ?_⟩, ?_⟩
+      · simp [hp, hin]
+      · intro r hr
+        obtain ⟨r0, hr0, e1, e2⟩ := hi.refs.cnProc i c r hc hr
+        simp [hr0, e1, e2]
+      · exact nodupB_of_nodup _ (hi.refs.cnNodupR i c hc)
+  · cases hr : s.mem.prs i with
+    | none => rfl
+    | some r =>
+      rcases hi.refs.procPar i r hr with ⟨e, p, hp, hin⟩ | ⟨e, c, hc, hin⟩
+      · simp [e, hp, hin]
+      · simp [e, hc, hin]
 
 /-- what a restarted server loads (`Init`: running pipelines become system-stopped). -/
 def reloadPls (k : KV) : Map Pl := fun id => (k.pls id).map fun p => if p.status = 1 then { p with status := 2 } else p
@@ -200,6 +320,18 @@ theorem C14_atomic_counterexample_processor_delete_order :
   revert h2; decide
 
 /-! ## non-vacuity -/
+
+/-- `TriggerFreeRun` is satisfiable by histories with store failures: the witness prefix followed
+by a connector creation whose `Commit` fails and a processor update whose store write fails
+(both handled by the repaired code), and the invariant is not vacuous there: the run has three
+processors listed in the pipeline, all existing. -/
+example : TriggerFreeRun Variant.repaired St.init
+    (witnessHistory ++ [(.cnCreate 1 1 0 4 1, some 4), (.prUpdate 4 2 2 1, some 2), (.plDelete 0, none)]) :=
+  ⟨rfl, rfl, rfl, rfl, rfl, rfl, rfl, rfl, rfl, rfl, trivial⟩
+
+example : ((run Variant.repaired St.init witnessHistory).mem.pls 0).map (·.procs) = some [4, 5, 6] ∧
+    ((run Variant.repaired St.init witnessHistory).mem.prs 5).isSome = true := by decide
+
 
 /-- the invariant is satisfiable (the empty server) and the trigger-free hypotheses too. -/
 example : MemEqStore St.init ∧ f7Trigger Variant.asFound St.init (.plCreate 1 1) (some 1) = false :=
